@@ -30,7 +30,7 @@ SCRATCH = '/dev/shm/asyncssh-verif-c15-%d' % os.getpid()       # unique per chec
 
 KEYTYPES = [('ssh-rsa', {'key_size': 2048}), ('ssh-dss', {}), ('ecdsa-sha2-nistp256', {}), ('ecdsa-sha2-nistp384', {}),
             ('ecdsa-sha2-nistp521', {}), ('ssh-ed25519', {}), ('ssh-ed448', {})]
-PASSPHRASES = [('short', 'x'), ('nonascii', 'pässwörd-ключ'), ('len31', 'a' * 31), ('len32', 'b' * 32),
+PASSPHRASES = [('short', 'x'), ('empty', ''), ('empty-bytes', b''), ('nonascii', 'pässwörd-ключ'), ('len31', 'a' * 31), ('len32', 'b' * 32),
                ('len33', 'c' * 33), ('long', 'p' * 1024)]
 COMMENTS = [None, b'plain', b'two words', b'double  blank', b'tab\there', b'Name:   J. Doe   <jd@example.com>',
             b'non-utf8 \xff\xfe']
@@ -103,9 +103,10 @@ def worker(job):
             except Exception as exc:        # pylint: disable=broad-except
                 viol('roundtrip', lab, 'import of own export failed: %r' % (exc,))
             if encrypted:
-                for wname, wrong in (('other', 'y'), ('prefix', (pp or '')[:-1] or 'z'), ('suffix', (pp or '') + 'q'),
-                                     ('none', None), ('tail-changed', (pp or '')[:-1] + 'Z')):
-                    if wrong == pp:
+                pps_ = pp.decode() if isinstance(pp, bytes) else (pp or '')
+                for wname, wrong in (('other', 'y'), ('prefix', pps_[:-1] or 'z'), ('suffix', pps_ + 'q'),
+                                     ('none', None), ('tail-changed', pps_[:-1] + 'Z')):
+                    if wrong == pp or (not pp and not wrong and wrong is not None):
                         continue
                     try:
                         k2 = asyncssh.import_private_key(data, wrong)
@@ -116,6 +117,8 @@ def worker(job):
                         viol('wrong-passphrase-error', lab, 'undocumented %r for variant %s' % (exc, wname))
             # independent reader: PyCA
             pb = pp.encode('utf-8') if isinstance(pp, str) else pp
+            if encrypted and not pp:
+                continue        # an empty passphrase is a real passphrase for asyncssh; other tools treat it as none
             try:
                 if fmt == 'openssh':
                     other = load_ssh_private_key(data, pb)
@@ -276,7 +279,7 @@ def worker(job):
         with open(src, 'wb') as f:
             f.write(key.export_private_key('pkcs8-pem'))
         for pname, pp in PASSPHRASES:
-            if pname == 'long':
+            if pname == 'long' or not pp:
                 continue
             for v1 in ('PBE-SHA1-3DES', None):
                 cmd = [OPENSSL, 'pkcs8', '-topk8', '-in', src, '-passout', 'pass:' + pp]
